@@ -44,6 +44,9 @@ pub struct Tamper {
     pub file: FileSel,
     pub kind: Kind,
     pub offset: Offset,
+    /// give the edited file its original modification time back (cp -p, rsync -t, restore from backup)
+    #[serde(default)]
+    pub keep_mtime: bool,
 }
 
 #[derive(Debug, Clone, Serialize, Deserialize)]
@@ -69,7 +72,17 @@ pub fn tamper() -> impl Strategy<Value = Tamper> {
             3 => (prop_oneof![Just(8192usize), Just(16384), Just(65536)], -3i32..=3).prop_map(|(b, d)| Offset::Near(b, d)),
         ],
     )
-        .prop_map(|(file, kind, offset)| Tamper { file, kind, offset })
+        .prop_map(|(file, kind, offset)| Tamper {
+            file,
+            kind,
+            offset,
+            keep_mtime: false,
+        })
+        .prop_flat_map(|t| (Just(t), proptest::bool::weighted(0.3)))
+        .prop_map(|(mut t, k)| {
+            t.keep_mtime = k;
+            t
+        })
 }
 
 pub fn strategy() -> impl Strategy<Value = Case> {
@@ -219,7 +232,13 @@ pub fn check(case: &Case, w: usize) -> CheckResult {
                 continue;
             }
         }
+        let orig_mtime = std::fs::metadata(&path).and_then(|m| m.modified()).ok();
         std::fs::write(&path, &new).map_err(|e| Inconclusive(e.to_string()))?;
+        if t.keep_mtime {
+            if let (Some(mt), Ok(f)) = (orig_mtime, std::fs::OpenOptions::new().write(true).open(&path)) {
+                let _ = f.set_modified(mt);
+            }
+        }
         let snap = bb::snapshot_dir(&out_dir);
         // two APIs per tamper, rotating through all of them
         for k in 0..2 {
@@ -274,6 +293,7 @@ pub fn check(case: &Case, w: usize) -> CheckResult {
                 Kind::AppendPeriodic(..) => "append-periodic",
                 Kind::TruncateTail(_) => "truncate-tail",
             })
+            .class_if(t.keep_mtime, "mtime-preserved")
             .class(if off < 8192 { "offset<8192" } else if off < 16384 { "offset<16384" } else { "offset>=16384" });
     }
     info.nontrivial = nontrivial;
@@ -295,6 +315,7 @@ pub fn exhaustive_cases() -> Vec<Case> {
                 file,
                 kind: Kind::Xor(if o % 2 == 0 { 0x01 } else { 0x20 }),
                 offset: Offset::Abs(o),
+                keep_mtime: o % 5 == 0,
             });
         }
     }
@@ -304,6 +325,7 @@ pub fn exhaustive_cases() -> Vec<Case> {
                 file,
                 kind: k,
                 offset: Offset::Last,
+                keep_mtime: false,
             });
         }
     }
@@ -318,7 +340,7 @@ pub fn exhaustive_cases() -> Vec<Case> {
 pub fn run(ctx: &mut Ctx) {
     ctx.rule = "a valid source configuration (2-6 generated targets, or 60-300 targets so that the generated file spans several 8 KiB buffers) passed through the real `config generate`; \
 first every API is exercised on the untouched triple (all must succeed, run must start its helpers); then single tampers: file in {source, generated, lockfile} x {XOR a non-zero mask into one byte, \
-truncate, append (text, NUL bytes, bytes repeating the content 512/4096/8192/16384/65536 positions earlier), cut 1-3 tail bytes} x offset (first, last, uniformly random, within 3 bytes of 8192/16384/65536); plus every single-byte edit of one small triple. oracle per tamper (2 of 9 APIs, rotating): \
+truncate, append (text, NUL bytes, bytes repeating the content 512/4096/8192/16384/65536 positions earlier), cut 1-3 tail bytes}, 30% with the file's modification time restored afterwards x offset (first, last, uniformly random, within 3 bytes of 8192/16384/65536); plus every single-byte edit of one small triple. oracle per tamper (2 of 9 APIs, rotating): \
 non-zero exit, error JSON on stderr, no helper started, out dir byte-identical. lockfile edits that leave the parsed checksum intact are not judged. \
 non-trivial = tamper offset >= 8192, or tamper in source/lockfile; distinct by SHA-256"
         .to_string();
